@@ -87,7 +87,7 @@ type GoVariant struct {
 	Defect    string // "" or one of the C12 package defects
 }
 
-var stageATypes = &TypeNames{Token: "Token", Error: "Error", Node: []string{"*Node", "*bytes.Buffer", "*strings.Builder"}}
+var stageATypes = &TypeNames{Token: "Token", Error: "Error", Node: []string{"*Node", "*bytes.Buffer", "*strings.Builder", "*yaml.Node"}}
 
 // GoStageA prints the Go sources of a project for the generator-side
 // simulation: enough for lox to bind actions; bodies are empty.
@@ -101,9 +101,9 @@ func (s *Spec) GoStageA(v GoVariant) map[string]string {
 		return files
 	}
 	var head, body strings.Builder
-	imports := "import (\n\t\"bytes\"\n\t\"strings\"\n\n\t\"github.com/dcaiafa/loxlex/simplelexer\"\n)\n\n"
+	imports := "import (\n\t\"bytes\"\n\t\"strings\"\n\n\t\"github.com/dcaiafa/loxlex/simplelexer\"\n\t\"gopkg.in/yaml.v3\"\n)\n\n"
 	fmt.Fprintf(&head, "package %s\n\n%s", s.Pkg, imports)
-	head.WriteString("var _ bytes.Buffer\nvar _ strings.Builder\nvar _ simplelexer.Token\n\n")
+	head.WriteString("var _ bytes.Buffer\nvar _ strings.Builder\nvar _ simplelexer.Token\nvar _ yaml.Node\n\n")
 	if v.Defect != "no-token" {
 		head.WriteString("type Token = simplelexer.Token\n\n")
 	}
@@ -213,7 +213,7 @@ func (s *Spec) GoStageA(v GoVariant) map[string]string {
 	}
 	if v.SplitFile != "" {
 		files[v.FileName] = head.String()
-		files[v.SplitFile] = fmt.Sprintf("package %s\n\n%s", s.Pkg, "import (\n\t\"bytes\"\n\t\"strings\"\n)\n\nvar _ bytes.Buffer\nvar _ strings.Builder\n\n") + body.String()
+		files[v.SplitFile] = fmt.Sprintf("package %s\n\n%s", s.Pkg, "import (\n\t\"bytes\"\n\t\"strings\"\n\n\t\"gopkg.in/yaml.v3\"\n)\n\nvar _ bytes.Buffer\nvar _ strings.Builder\nvar _ yaml.Node\n\n") + body.String()
 	} else {
 		files[v.FileName] = head.String() + body.String()
 	}
